@@ -260,4 +260,336 @@ class C19Plan(RunPlan):
                          results + enum, by_sig, known_seen, st, **kw)
 
 
-PLANS = {"C20": C20Plan, "C19": C19Plan}
+def b_boots(seed, tier, opt=False):
+    """World B boots: SI only (prefixes available), everything, and the bare core."""
+    boots = [
+        {"imports": ["si"], "trace": False, "opt": opt, "hashseed": 0},
+        {"imports": list(ALL_MODULES), "trace": False, "opt": opt, "hashseed": 0},
+        {"imports": [], "trace": False, "opt": opt, "hashseed": 0},
+    ]
+    if tier == "thorough":
+        boots += [b for b in std_boots(seed, 4, opt)[2:]]
+    return boots
+
+
+B_COMPONENTS = {
+    "real": ["measured (entire package): conversions planner, path search, caches, Quantity arithmetic"],
+    "simulated": ["fresh worlds / restarts (os.fork of a template interpreter)", "cache eviction (F4)",
+                  "asynchronous exceptions inside queries (F2)",
+                  "unit systems under construction with hidden exact sizes (reference model)"],
+    "stub": [],
+}
+
+DEF_KINDS = {"dim_unit", "define_unit", "derive", "alias", "declare", "scale"}
+QUERY_KINDS = {"convert", "cmp", "q_bin", "conv_linear", "conv_roundtrip", "conv_self", "conv_via", "sorted"}
+
+
+def refs_of(op):
+    out = []
+    for k, v in op.items():
+        if isinstance(v, list) and len(v) >= 2 and v[0] == "r" and isinstance(v[1], int):
+            out.append(v[1])
+        elif k == "qs" and isinstance(v, list):
+            out.extend(x[1] for x in v if isinstance(x, list) and x and x[0] == "r")
+    return out
+
+
+def baseline_ops(ops, qi):
+    """Definitions and declarations before ops[qi], plus whatever is needed to build
+    the operands of the query, then the query alone."""
+    q = ops[qi]
+    by_id = {o["id"]: o for o in ops[:qi]}
+    keep = set()
+    stack = []
+    for o in ops[:qi]:
+        if o["op"] in DEF_KINDS or (o["op"] == "prefix_new" and (o.get("name") or o.get("symbol"))):
+            keep.add(o["id"])
+            stack.extend(refs_of(o))
+    stack.extend(refs_of(q))
+    while stack:
+        i = stack.pop()
+        if i in keep or i not in by_id:
+            continue
+        keep.add(i)
+        stack.extend(refs_of(by_id[i]))
+    out = [o for o in ops[:qi] if o["id"] in keep]
+    qq = {k: v for k, v in q.items() if k not in ("inject", "repeat_of")}
+    return out + [qq]
+
+
+def same_outcome(a, b, tol):
+    if a is None or b is None:
+        return a == b
+    if a.get("cls") != b.get("cls"):
+        return False
+    if "b" in a or "b" in b:
+        return a.get("b") == b.get("b") and a.get("order") == b.get("order")
+    if "m" in a and "m" in b:
+        if a["m"] == b["m"]:
+            return True
+        try:
+            x, y = float(a["m"][1].replace("Decimal('", "").replace("')", "")), \
+                float(b["m"][1].replace("Decimal('", "").replace("')", ""))
+        except ValueError:
+            return False
+        if a["m"][0] != b["m"][0]:
+            return False
+        if x == y:
+            return True
+        return abs(x - y) <= tol * max(abs(x), abs(y))
+    return True
+
+
+class C08Plan(RunPlan):
+    prop = "C08"
+    engine = "B"
+    quick_runs = 1500
+    thorough_runs = 40000
+    run_timeout = 180
+    components = B_COMPONENTS
+    rule = ("one evaluation = one simulated history (<=60 ops) over a synthetic, exactly consistent unit system "
+            "under construction: unit definitions, equivalence declarations (several redundant paths, seeded "
+            "order) and conversion/comparison/+/- queries interleaved at any point, including before the "
+            "declarations that enable them, with repeats, chained conversions, cache evictions (F4) and at most one "
+            "asynchronous exception inside a query (F2). Oracle 1 (fresh-world differential): for every query "
+            "(a seeded third in histories longer than 25 ops) a baseline world forked from the same template "
+            "executes only the definitions/declarations that preceded it plus the query; outcome class must match "
+            "and magnitudes agree within 1e-9. Oracle 2: a repeat with no declaration in between is bit-identical. "
+            "Non-trivial = >=1 query compared against its baseline; distinct = distinct event-log digests.")
+
+    def boots(self, tier, seed):
+        return b_boots(seed, tier)
+
+    def params(self, tier):
+        return {"faults": True}
+
+    def request(self, run_seed, boot):
+        return {"engine": "B", "prop": self.prop, "seed": run_seed, "params": self.params_cache,
+                "timeout": self.run_timeout, "want_ops": True}
+
+    def nontrivial(self, r):
+        return r.get("counters", {}).get("C08.baseline.checked", 0) > 0
+
+    def select_queries(self, ops, seed):
+        idx = [i for i, o in enumerate(ops) if o["op"] in QUERY_KINDS and "inject" not in o]
+        if len(ops) > 25:
+            idx = [i for k, i in enumerate(idx) if (k + (seed or 0)) % 3 == 0]
+        return idx
+
+    def compare(self, res, ops, qi, base_res):
+        """Appends a violation to res if the history outcome of ops[qi] differs from
+        its baseline outcome."""
+        q = ops[qi]
+        h = (res.get("queries") or {}).get(str(q["id"]))
+        b = (base_res.get("queries") or {}).get(str(q["id"]))
+        c = res.setdefault("counters", {})
+        c["C08.baseline.checked"] = c.get("C08.baseline.checked", 0) + 1
+        if h is None or b is None:
+            c["C08.baseline.skipped"] = c.get("C08.baseline.skipped", 0) + 1
+            return None
+        if same_outcome(h, b, 1e-9):
+            return None
+        return {"clause": "C08.baseline", "signature": None, "step": qi,
+                "detail": {"query": q, "history_outcome": h, "fresh_world_outcome": b}}
+
+    def diagnose(self, template_req, ops, qi, v):
+        """history/<mechanism>: re-run the history with every cache cleared right
+        before the query; if that restores the baseline outcome the cause is a
+        stale memo table."""
+        q = ops[qi]
+        cand = ops[:qi] + [{"op": "evict", "caches": None, "id": 10 ** 6}] + ops[qi:qi + 1]
+        r = template_req(cand)
+        h2 = (r.get("queries") or {}).get(str(q["id"]))
+        b = v["detail"]["fresh_world_outcome"]
+        h = v["detail"]["history_outcome"]
+        if same_outcome(h2, b, 1e-9):
+            if h.get("cls", "").startswith("raise") and b.get("cls") == "ok":
+                return "stale-negative-cache"
+            if h.get("cls") == "ok" and b.get("cls") == "ok":
+                return "stale-ratio-cache"
+            return "stale-cache"
+        return "other"
+
+    def post_process(self, tasks, results, pool):
+        btasks, where = [], []
+        for i, ((boot, req), res) in enumerate(zip(tasks, results)):
+            if not res or "harness_error" in res or not res.get("ops"):
+                continue
+            ops = res["ops"]
+            for qi in self.select_queries(ops, req.get("seed")):
+                btasks.append((boot, {"engine": "B", "prop": self.prop, "ops": baseline_ops(ops, qi),
+                                      "timeout": self.run_timeout}))
+                where.append((i, qi))
+        bres = pool.run(btasks)
+        self.baseline_worlds = len(btasks)
+        pending = []
+        for (i, qi), br in zip(where, bres):
+            if "harness_error" in br:
+                results[i] = {"harness_error": br["harness_error"]}
+                continue
+            if "harness_error" in results[i]:
+                continue
+            v = self.compare(results[i], results[i]["ops"], qi, br)
+            if v is not None:
+                pending.append((i, qi, v))
+        # diagnose mechanisms (one extra world per differing query)
+        dtasks = []
+        for i, qi, v in pending:
+            ops = results[i]["ops"]
+            cand = ops[:qi] + [{"op": "evict", "caches": None, "id": 10 ** 6}] + ops[qi:qi + 1]
+            dtasks.append((tasks[i][0], {"engine": "B", "prop": self.prop, "ops": cand, "timeout": self.run_timeout}))
+        dres = pool.run(dtasks) if dtasks else []
+        for (i, qi, v), dr in zip(pending, dres):
+            v["signature"] = "C08/history/" + self._mechanism(results[i]["ops"][qi], v, dr)
+            results[i].setdefault("violations", []).append(v)
+        for r in results:
+            if r and "ops" in r:
+                r["ops"] = None   # free memory
+
+    def _mechanism(self, q, v, dr):
+        h2 = (dr.get("queries") or {}).get(str(q["id"]))
+        b, h = v["detail"]["fresh_world_outcome"], v["detail"]["history_outcome"]
+        if same_outcome(h2, b, 1e-9):
+            if h.get("cls", "").startswith("raise") and b.get("cls") == "ok":
+                return "stale-negative-cache"
+            if h.get("cls") == "ok" and b.get("cls") == "ok":
+                return "stale-ratio-cache"
+            return "stale-cache"
+        return "other"
+
+    def run_one(self, template, req):
+        res = template.request(dict(req, want_ops=True))
+        if "harness_error" in res:
+            return res
+        ops = res.get("ops") or req.get("ops")
+        for qi in [i for i, o in enumerate(ops) if o["op"] in QUERY_KINDS and "inject" not in o]:
+            br = template.request({"engine": "B", "prop": self.prop, "ops": baseline_ops(ops, qi),
+                                   "timeout": self.run_timeout})
+            if "harness_error" in br:
+                return br
+            v = self.compare(res, ops, qi, br)
+            if v is not None:
+                cand = ops[:qi] + [{"op": "evict", "caches": None, "id": 10 ** 6}] + ops[qi:qi + 1]
+                dr = template.request({"engine": "B", "prop": self.prop, "ops": cand, "timeout": self.run_timeout})
+                v["signature"] = "C08/history/" + self._mechanism(ops[qi], v, dr)
+                res.setdefault("violations", []).append(v)
+        return res
+
+    def evidence(self, tier, seed, t0, tasks, results, by_sig, known_seen, st, **kw):
+        extra = kw.pop("extra", None) or {}
+        extra["baseline_worlds_forked"] = getattr(self, "baseline_worlds", 0)
+        super().evidence(tier, seed, t0, tasks, results, by_sig, known_seen, st, extra=extra, **kw)
+
+
+class C04Plan(RunPlan):
+    prop = "C04"
+    engine = "B"
+    quick_runs = 5000
+    thorough_runs = 150000
+    components = B_COMPONENTS
+    rule = ("one evaluation = one simulated history over a synthetic unit system with hidden exact rational "
+            "sizes (2-4 fundamental dimensions, 2-5 units each, named units of derived dimensions, redundant "
+            "consistent declarations in seeded order) with conversions interleaved at arbitrary points, caches "
+            "cold/warm/evicted, under several boot configurations; every successful in_unit is compared with "
+            "magnitude*size(src)/size(dst) in exact arithmetic (1e-9) and must carry the requested unit object. "
+            "Query shapes (<=3 factors, |exponent|<=3, any prefix) are drawn from the calibrated region (DESIGN "
+            "World B: classes X1-X6 excluded; their exemplars are re-executed every run). Non-trivial = >=1 value "
+            "checked; distinct = distinct event-log digests.")
+
+    def boots(self, tier, seed):
+        return b_boots(seed, tier)
+
+    def params(self, tier):
+        return {"faults": True}
+
+    def request(self, run_seed, boot):
+        return {"engine": "B", "prop": self.prop, "seed": run_seed, "params": self.params_cache,
+                "timeout": self.run_timeout}
+
+
+class C05Plan(C04Plan):
+    prop = "C05"
+    quick_runs = 5000
+    rule = ("one evaluation = one simulated history as for C04, whose queries are composite: k*q vs k*convert(q) "
+            "(k in {0,-1,2,1e-3,7/3}), zero and sign, conversion to the own unit (1e-12), there-and-back (2e-12) and "
+            "via an intermediate unit vs direct (3e-12), plus chains through the pool of earlier results; all on "
+            "exactly consistent synthetic systems in the calibrated region, with cache eviction between and inside "
+            "chains. No fault kind bears on this property; the simulator contributes the histories, configurations "
+            "and eviction. Non-trivial = >=1 C05 clause evaluated.")
+
+
+class C07Plan(C04Plan):
+    prop = "C07"
+    quick_runs = 2500      # each seed is run twice: python and python -O
+    thorough_runs = 60000
+    rule = ("one evaluation = one simulated history (as C08: queries on unconnected, partially connected and "
+            "product-defined units, before and after declarations) executed twice from the same seed: in a "
+            "template started with `python` and in one started with `python -O` (same import order). Clause 1: a "
+            "failing in_unit/+/- raises only ConversionNotFound, ordering raises TypeError, == never raises; "
+            "signature = exception type + innermost library frame + shape class. Clause 2: the two event logs "
+            "(every outcome class and every magnitude) must be identical. Query shapes from the calibrated region; "
+            "exemplars of the excluded classes are re-executed every run.")
+
+    def check(self, tier, seed, args, t0):
+        return super().check(tier, seed, args, t0)
+
+    def boots(self, tier, seed):
+        return b_boots(seed, tier)
+
+    def build_pairs(self, tasks):
+        out = []
+        for b, r in tasks:
+            out.append((b, r))
+            out.append((dict(b, opt=True), r))
+        return out
+
+    def post_process(self, tasks, results, pool):
+        # run every seed again under -O and compare digests
+        otasks = [(dict(b, opt=True), r) for b, r in tasks]
+        ores = pool.run(otasks)
+        self.opt_runs = len(ores)
+        for i, (r, o) in enumerate(zip(results, ores)):
+            if "harness_error" in o:
+                results[i] = {"harness_error": "-O world: " + o["harness_error"]}
+                continue
+            if "harness_error" in r:
+                continue
+            c = r.setdefault("counters", {})
+            c["C07.O-diff.checked"] = c.get("C07.O-diff.checked", 0) + 1
+            if r.get("digest") != o.get("digest"):
+                qa, qb = r.get("queries") or {}, o.get("queries") or {}
+                diff = [k for k in sorted(set(qa) | set(qb), key=lambda x: int(x)) if qa.get(k) != qb.get(k)]
+                cls = (r.get("query_classes") or {}).get(diff[0], "?") if diff else "no-query"
+                r.setdefault("violations", []).append({
+                    "clause": "C07.O-diff", "signature": "C07/-O-diff/" + cls, "step": 0,
+                    "detail": {"first_differing_query": diff[:1], "python": qa.get(diff[0]) if diff else None,
+                               "python_O": qb.get(diff[0]) if diff else None}})
+
+    def run_one(self, template, req):
+        res = template.request(req)
+        if "harness_error" in res:
+            return res
+        ot = driver.Template(dict(template.boot, opt=True))
+        try:
+            o = ot.request(req)
+        finally:
+            ot.close()
+        if "harness_error" in o:
+            return o
+        if res.get("digest") != o.get("digest"):
+            qa, qb = res.get("queries") or {}, o.get("queries") or {}
+            diff = [k for k in sorted(set(qa) | set(qb), key=lambda x: int(x)) if qa.get(k) != qb.get(k)]
+            cls = (res.get("query_classes") or {}).get(diff[0], "?") if diff else "no-query"
+            res.setdefault("violations", []).append({
+                "clause": "C07.O-diff", "signature": "C07/-O-diff/" + cls, "step": 0,
+                "detail": {"first_differing_query": diff[:1], "python": qa.get(diff[0]) if diff else None,
+                           "python_O": qb.get(diff[0]) if diff else None}})
+        return res
+
+    def evidence(self, tier, seed, t0, tasks, results, by_sig, known_seen, st, **kw):
+        extra = kw.pop("extra", None) or {}
+        extra["runs_repeated_under_python_O"] = getattr(self, "opt_runs", 0)
+        super().evidence(tier, seed, t0, tasks, results, by_sig, known_seen, st, extra=extra, **kw)
+
+
+PLANS = {"C20": C20Plan, "C19": C19Plan, "C08": C08Plan, "C04": C04Plan, "C05": C05Plan, "C07": C07Plan}
